@@ -154,7 +154,7 @@ pub fn run(tier: &str) -> Result<Report, String> {
     let (m, pool, which): (usize, usize, Vec<String>) = if tier == "quick" { (3, 2, ["con2", "asy2", "inp2", "imp3"].iter().map(|s| s.to_string()).collect()) } else { (4, 5, nets.iter().map(|b| b.name.clone()).collect()) };
     // plus a network whose variable names look like the auxiliary variables' names
     let mut nets = nets;
-    let named = name_nets(0)?;
+    let named: Vec<_> = name_nets(0)?.into_iter().chain(decl_nets(0)?).collect();
     let which: Vec<String> = which.into_iter().chain(named.iter().map(|b| b.name.clone())).collect();
     nets.extend(named);
     for b in nets.iter().filter(|b| which.contains(&b.name)) {
@@ -406,7 +406,7 @@ pub fn run(tier: &str) -> Result<Report, String> {
         rep.set("wide_models", json!(wide));
     }
     rep.sample(json!({"network": "con2", "formula": "(!{x}: (3{y}: ((@{x}: (AX {y})) & (EF {x}))))", "k": [2, 3, 5], "check": "model_check_formula == model_check_formula_dirty point-wise; BDD over the variables of SymbolicContext::new; identical for all k; usable with SymbolicAsyncGraph::new"}));
-    rep.rule = format!("every closed plain formula with <= {m} nodes and every plain template formula and the two-operator nest family (every binary operator over every unary operator in either operand position, also with a state variable or a closed fixed-point sub-formula inside) on {which:?}, on graphs with k = d, d+1, d+3 spare variable sets (d = quantifier nesting depth): sanitised result == raw result on every state x valid colour == explicit-state oracle; expressed over exactly the variables of SymbolicContext::new(network); subset of and usable with SymbolicAsyncGraph::new(network); BDD-identical for all k; every multi-colour network additionally with the unit set of the graph restricted (SymbolicAsyncGraph::restrict) to every second valid colour, where raw and sanitised results must also stay inside the restricted unit set; and every ordered pair and triple over a pool of 8 formulae of different heights through model_check_multiple_formulae vs model_check_multiple_formulae_dirty, position by position; plus two-network histories (ordered pairs of 5 networks with identical variable names and parameter signature, sanitising calls on the first, then all obligations for 7 formulae on the second, on one fresh OS thread); plus the extended entry points with context sets inside and outside the valid colours (9 formulae, k = 1, 2, 4, single and batch) against lib-param-bn's transfer of the raw result; plus wide synthetic models (> 2^53 pairs; results that are everything but one state, single states, ...): sanitised == raw result transferred to the canonical context by lib-param-bn, single and batch entry points, k = 1, 3. distinct_nontrivial = number of (formula, network) pairs");
+    rep.rule = format!("every closed plain formula with <= {m} nodes and every plain template formula and the two-operator nest family (every binary operator over every unary operator in either operand position, also with a state variable or a closed fixed-point sub-formula inside) on {which:?} (including networks with unusual names and three networks built programmatically with variables declared in non-lexicographic order), on graphs with k = d, d+1, d+3 spare variable sets (d = quantifier nesting depth): sanitised result == raw result on every state x valid colour == explicit-state oracle; expressed over exactly the variables of SymbolicContext::new(network); subset of and usable with SymbolicAsyncGraph::new(network); BDD-identical for all k; every multi-colour network additionally with the unit set of the graph restricted (SymbolicAsyncGraph::restrict) to every second valid colour, where raw and sanitised results must also stay inside the restricted unit set; and every ordered pair and triple over a pool of 8 formulae of different heights through model_check_multiple_formulae vs model_check_multiple_formulae_dirty, position by position; plus two-network histories (ordered pairs of 5 networks with identical variable names and parameter signature, sanitising calls on the first, then all obligations for 7 formulae on the second, on one fresh OS thread); plus the extended entry points with context sets inside and outside the valid colours (9 formulae, k = 1, 2, 4, single and batch) against lib-param-bn's transfer of the raw result; plus wide synthetic models (> 2^53 pairs; results that are everything but one state, single states, ...): sanitised == raw result transferred to the canonical context by lib-param-bn, single and batch entry points, k = 1, 3. distinct_nontrivial = number of (formula, network) pairs");
     Ok(rep)
 }
 
